@@ -221,6 +221,18 @@ def generate(package="numeric", spec_dir="specs"):
     disp.append("end TF\n")
     if write_if_changed(os.path.join(base, "GenFloat", "Dispatch.lean"), "\n".join(disp)):
         changed.append("GenFloat/Dispatch.lean")
+    # one dispatch table per module as well: a driver that imports only `Dispatch<Module>` keeps
+    # building when ANOTHER source file changes into something untranslatable / ill-typed
+    import re as _re
+    name2mod = {key.split(".")[1]: key.split(".")[0] for key in report["functions"]}
+    case_lines = [l for l in disp if l.startswith('  | "')]
+    for mod in outputs:
+        mine = [l for l in case_lines if name2mod.get(_re.match(r'\s*\| "([^"!.]+)', l).group(1)) == mod]
+        txt = [f"import GenFloat.{mod}\n", "/-! GENERATED by tools/py2lean/gen_all.py — do not edit. name -> Float function. -/\n",
+               "namespace TF\n", f"def dispatch{mod} (name : String) (a : Array Float) : Option (Array Float) :=",
+               "  match name, a.size with"] + mine + ["  | _, _ => none\n", "end TF\n"]
+        if write_if_changed(os.path.join(base, "GenFloat", f"Dispatch{mod}.lean"), "\n".join(txt)):
+            changed.append(f"GenFloat/Dispatch{mod}.lean")
     report["changed"] = changed
     write_if_changed(os.path.join(base, "gen_report.json"), json.dumps(report, indent=1, sort_keys=True))
     return report
